@@ -21,6 +21,8 @@ CLAIMED = {
          "the schedule dimension only matters for the multi-client and resize parts; weights 0..5, capacities 0..10, shards 1..4"),
  "C06": ("exploration", "5.C06", "2-5 overlapping callers per key with harness-controlled origins (ok / error / preempted), concurrent insert / remove / fetch-task cancellation; oracle: at most one origin per key at a time, every caller answered (deadlock / step bound = violation), answers explained by an origin of their round, failed fetch caches nothing. Memory-only and hybrid variants.",
          "origin futures are harness futures; cancellation = abort of the spawned fetch task at its next poll"),
+ "C10": ("fault_enumeration", "5.C10", "histories with up to several tombstone-log pages of deletes (beyond the 256 slots of one page, below the log capacity), re-inserts, and 1-4 restart cycles (graceful, or process death after wait()) with further deletes in each cycle, flusher counts 1-3; after every restart each real key is read and judged by the value oracle: a key whose delete was flushed reads absent, a re-inserted key is not hidden.",
+         "crash points are restricted to moments right after a completed wait() (torn tombstone pages are covered by C04's crash enumeration); one real key universe of 16-48 keys plus filler deletes"),
  "C11": ("exploration", "5.C11", "every ordering of {fetch starts, explicit insert completes, origin resolves ok/err (with a preemption point inside its final poll), further lookups} for 1-3 waiters, all algorithms; premise evaluated on event sequence numbers; late result must never be delivered or cached.",
          "origin futures are harness futures with a sync preemption point in their last poll"),
  "C12": ("exploration", "5.C12", "short hybrid histories (each placement advice, get, get_or_fetch hit/miss, evictions, close) under both policies, admission admit / reject / throttle, probation-marking pickers; every device data write is parsed by an independent parser and attributed to (key, version, engine sequence); licences are derived from the recorded inserts / fresh fetches / evictions (with the age the looked-up handle reported); unlicensed writes, missing licensed writes (by the next wait/close after submission), in-memory-only entries on disk, on-disk-advised entries resident in memory and origin polls while the disk lookup is held are violations.",
@@ -36,7 +38,7 @@ CLAIMED = {
 NOT_APPLICABLE = {
  "C14": "pure function of the operation sequence for a single shard: no schedule, clock, I/O or fault enters it; deciding it needs five reference implementations plus input generation (model-based testing), not simulation. Its concurrent clauses are covered by C18 (LRU never evicts a held looked-up entry) and C05 (eviction minimality / capacity bound).",
 }
-PENDING = {k: 'check not built yet at this commit (work in progress; see DESIGN.md section 5)' for k in ['C03','C04','C07','C08','C09','C10']}
+PENDING = {k: 'check not built yet at this commit (work in progress; see DESIGN.md section 5)' for k in ['C03','C04','C07','C08','C09']}
 
 def entry(pid, v):
     cat, ref, text, note = v
